@@ -564,7 +564,7 @@ func scenStaleRound(x *Ctx) {
 func scenFreshLeaderRead(x *Ctx) {
 	r := x.R
 	typ := x.P.Str("read", "LR")
-	all, l, ok := x.startStatic(3)
+	all, l, ok := x.startStatic(x.P.Int("voters", 3))
 	if !ok {
 		return
 	}
